@@ -70,6 +70,8 @@ func main() {
 	tier := fs.String("tier", "", "quick|thorough (default: $VERIF_TIER or quick)")
 	replay := fs.String("replay", "", "replay a history file")
 	child := fs.Bool("child", false, "internal: replay child")
+	rangeArg := fs.String("range", "", "internal: worker process, histories a:b")
+	outFile := fs.String("outfile", "", "internal: worker result file")
 	fs.Parse(os.Args[2:])
 	if *tier == "" {
 		*tier = os.Getenv("VERIF_TIER")
@@ -80,14 +82,24 @@ func main() {
 	seed := seedFromEnv()
 	var run func(History) *Viol
 	var prop string
+	var eng *engine
 	switch sub {
 	case "c11":
-		run, prop = runC11, "C11"
+		run, prop, eng = runC11, "C11", c11Engine
 	case "c20":
-		run, prop = runC20, "C20"
+		run, prop, eng = runC20, "C20", c20Engine
 	default:
 		fmt.Fprintln(os.Stderr, "histcheck: unknown property", sub)
 		os.Exit(2)
+	}
+	if *rangeArg != "" {
+		a, b, ok := parseRange(*rangeArg)
+		if !ok || *outFile == "" {
+			fmt.Fprintln(os.Stderr, "histcheck: bad -range / -outfile")
+			os.Exit(2)
+		}
+		eng.childRange(seed, *tier, a, b, *outFile)
+		os.Exit(0)
 	}
 	if *replay != "" {
 		h := readHistory(*replay)
@@ -95,7 +107,7 @@ func main() {
 			fmt.Fprintf(os.Stderr, "histcheck: %s is a %s history\n", *replay, h.Property)
 			os.Exit(2)
 		}
-		v := run(h)
+		v := eng.replayHistory(h)
 		if v == nil {
 			fmt.Printf("replay %s: property %s holds on this history\n", *replay, prop)
 			os.Exit(0)
